@@ -19,6 +19,7 @@
 //	rangeint   for i := 0; i < N; i++ becomes for i := range N
 //	switch-if  a small tagged switch becomes an if / else-if chain
 //	extract-pred  an if condition that reads only the receiver's fields and constants becomes a call of a new one-line predicate method
+//	extract-pred-args  like extract-pred for functions and methods alike, the condition's local variables become parameters of the helper
 //	demorgan   !(a) introduced: a && b becomes !(!(a) || !(b)) for boolean conditions of if statements
 package main
 
@@ -116,6 +117,98 @@ func main() {
 						name := fmt.Sprintf("vrfPred%d", len(extra)+1)
 						extra = append(extra, fmt.Sprintf("\nfunc (%s %s) %s() bool {\n\treturn %s\n}\n", recv.Name, recvType, name, types.ExprString(is.Cond)))
 						is.Cond = &ast.CallExpr{Fun: &ast.SelectorExpr{X: ast.NewIdent(recv.Name), Sel: ast.NewIdent(name)}}
+						n++
+						return true
+					})
+				}
+			}
+			if mode == "extract-pred-args" {
+				qual := func(q *types.Package) string {
+					if q == p.Types {
+						return ""
+					}
+					return "\x00" // a type of another package: not expressible without knowing the file's import names
+				}
+				for _, d := range f.Decls {
+					fd, ok := d.(*ast.FuncDecl)
+					if !ok || fd.Body == nil || (fd.Type.TypeParams != nil && len(fd.Type.TypeParams.List) > 0) {
+						continue
+					}
+					if fd.Recv != nil && (len(fd.Recv.List) != 1 || strings.Contains(types.ExprString(fd.Recv.List[0].Type), "[")) {
+						continue
+					}
+					ast.Inspect(fd.Body, func(node ast.Node) bool {
+						if _, isLit := node.(*ast.FuncLit); isLit {
+							return false
+						}
+						is, ok := node.(*ast.IfStmt)
+						if !ok || is.Init != nil {
+							return true
+						}
+						okCond := true
+						var params []*types.Var
+						seen := map[*types.Var]bool{}
+						ast.Inspect(is.Cond, func(e ast.Node) bool {
+							switch x := e.(type) {
+							case *ast.BinaryExpr:
+								if x.Op == token.LAND || x.Op == token.LOR {
+									okCond = false
+								}
+							case *ast.CallExpr:
+								if id, isID := x.Fun.(*ast.Ident); !isID || id.Name != "len" || p.TypesInfo.Uses[id] == nil || p.TypesInfo.Uses[id].Pkg() != nil {
+									okCond = false
+								}
+							case *ast.FuncLit, *ast.TypeAssertExpr, *ast.CompositeLit:
+								okCond = false
+							case *ast.UnaryExpr:
+								if x.Op == token.ARROW || x.Op == token.AND {
+									okCond = false
+								}
+							case *ast.SelectorExpr:
+								if sel := p.TypesInfo.Selections[x]; sel != nil && sel.Kind() != types.FieldVal {
+									okCond = false
+								}
+							case *ast.Ident:
+								switch o := p.TypesInfo.Uses[x].(type) {
+								case *types.Var:
+									if o.IsField() {
+										break
+									}
+									if o.Parent() == nil || o.Pkg() == nil || o.Parent() == o.Pkg().Scope() {
+										okCond = false // package-level variable: keep it simple
+										break
+									}
+									if !seen[o] {
+										seen[o] = true
+										params = append(params, o)
+									}
+								case *types.Const, *types.Nil, *types.PkgName, *types.Builtin:
+								case nil:
+								default:
+									okCond = false
+								}
+							}
+							return okCond
+						})
+						if !okCond || len(params) == 0 || len(params) > 4 {
+							return true
+						}
+						var decl, args []string
+						for _, v := range params {
+							ts := types.TypeString(v.Type(), qual)
+							if strings.Contains(ts, "\x00") || strings.Contains(ts, "struct{") || strings.Contains(ts, "interface{") || strings.Contains(ts, "func(") {
+								return true
+							}
+							decl = append(decl, v.Name()+" "+ts)
+							args = append(args, v.Name())
+						}
+						name := fmt.Sprintf("vrfCond%s%d", strings.TrimSuffix(strings.ReplaceAll(strings.ReplaceAll(p.Fset.Position(f.Pos()).Filename[strings.LastIndex(p.Fset.Position(f.Pos()).Filename, "/")+1:], ".go", ""), "_", ""), "-"), len(extra)+1)
+						extra = append(extra, fmt.Sprintf("\nfunc %s(%s) bool {\n\treturn %s\n}\n", name, strings.Join(decl, ", "), types.ExprString(is.Cond)))
+						call := &ast.CallExpr{Fun: ast.NewIdent(name)}
+						for _, a := range args {
+							call.Args = append(call.Args, ast.NewIdent(a))
+						}
+						is.Cond = call
 						n++
 						return true
 					})
